@@ -1,5 +1,6 @@
 import MosdnsVerif.Model.C07
 import MosdnsVerif.Model.C07R
+import MosdnsVerif.Model.C07U
 import MosdnsVerif.Lemmas.C07Locks
 import MosdnsVerif.Model.C09
 import MosdnsVerif.Props.C09
@@ -521,7 +522,9 @@ theorem facts_guard :
     Gen.Facts.c07LazyDialBounded = some true ∧ Gen.Facts.c07LazyCloseShape = some true ∧
     Gen.Facts.c07PipelineCloseShape = some true ∧ Gen.Facts.c07PipelineClosedRejects = some true ∧
     Gen.Facts.c07PipelineClosedCheckedUnderLock = some true ∧
-    (∀ a ∈ [RAct.setIdleDl, .setIdle, .handOver], a ∈ Gen.Facts.c07ReuseReaderOrder.map RAct.ofCode) := by decide
+    (∀ a ∈ [RAct.setIdleDl, .setIdle, .handOver], a ∈ Gen.Facts.c07ReuseReaderOrder.map RAct.ofCode) ∧
+    Gen.Facts.c07UpstreamCtxArgs.isSome = true ∧ Gen.Facts.c07FallbackClosesBoth = some true ∧
+    2 ≤ (Model.C07U.phasesOf Gen.Facts.c07UpstreamCtxArgs "udpWithFallback").length := by decide
 
 /-! ## the theorems of parts C and D at the regenerated facts -/
 
@@ -552,6 +555,88 @@ theorem timeouts_bounded :
     (Gen.Facts.c07WaitingReplyTimeoutMs.getD 1000000) ≤ 30000 ∧ (Gen.Facts.c07ReuseQueryTimeoutMs.getD 1000000) ≤ 30000 ∧
     (Gen.Facts.c07DialTimeoutMs.getD 1000000) ≤ 30000 ∧ 0 < Gen.Facts.c07WaitingReplyTimeoutMs.getD 0 ∧
     0 < Gen.Facts.c07ReuseQueryTimeoutMs.getD 0 ∧ 0 < Gen.Facts.c07DialTimeoutMs.getD 0 := by decide
+
+/-! ## part F: the upstreams composed out of transports (udp with its tcp retry, ...) -/
+
+section Upstream
+open Model.C07U
+
+theorem codeAt_tied : ∀ (ph : List Nat) (i : Nat), ph.all tied = true → i < ph.length → tied (codeAt ph i) = true := by
+  intro ph
+  induction ph with
+  | nil => intro i _ h; simp at h
+  | cons c t ih =>
+    intro i ha hl
+    simp only [List.all_cons, Bool.and_eq_true] at ha
+    cases i with
+    | zero => simpa [codeAt] using ha.1
+    | succ j =>
+      have : j < t.length := by simpa using hl
+      simpa [codeAt] using ih j ha.2 this
+
+theorem w_inv_step (ph : List Nat) (s s' : W) (l : WLabel) (hi : s.Inv ph) (hs : s.step ph l = some s') : s'.Inv ph := by
+  cases l <;> simp only [W.step] at hs
+  · split at hs
+    · next h => cases hs; exact fun _ => h.2
+    · cases hs
+  · split at hs
+    · cases hs; intro h; simp at h
+    · cases hs
+  · split at hs
+    · cases hs; exact hi
+    · cases hs
+  · split at hs
+    · cases hs; intro h; simp at h
+    · cases hs
+
+theorem w_inv_run (ph : List Nat) (ls : List WLabel) : ∀ (s s' : W), s.Inv ph → s.run ph ls = some s' → s'.Inv ph := by
+  induction ls with
+  | nil => intro s s' hi hr; simp [W.run] at hr; exact hr ▸ hi
+  | cons l ls ih =>
+    intro s s' hi hr
+    simp only [W.run] at hr
+    cases hs : s.step ph l with
+    | none => simp [hs] at hr
+    | some s1 => rw [hs] at hr; exact ih s1 s' (w_inv_step ph s s1 l hi hs) hr
+
+/-- F1. If every inner exchange of a wrapper is given a context tied to the caller's, then in every reachable state
+in which the caller's context has ended and the call has not returned, the returning step is enabled: there is no
+phase in which the call can only wait for the server, the connection or a timeout of its own. (With the guarantee
+of the transports for one exchange this is "every exchange returns promptly after its context is cancelled or times
+out" for the composed upstream.) -/
+theorem wrapper_returns_when_ctx_ends (ph : List Nat) (hne : ph.isEmpty = false) (ht : ph.all tied = true)
+    (ls : List WLabel) (s : W) (hr : ({} : W).run ph ls = some s) (hd : s.ctxDone = true) (hn : s.returned = false) :
+    ∃ s', s.step ph .wake = some s' ∧ s'.returned = true := by
+  have h0 : ({} : W).Inv ph := by
+    intro _
+    cases ph with
+    | nil => simp at hne
+    | cons c t => simp
+  have hi := w_inv_run ph ls _ s h0 hr
+  have hc := codeAt_tied ph s.phase ht (hi hn)
+  exact ⟨{ s with returned := true }, by simp [W.step, hn, hd, hc], rfl⟩
+
+/-- witness: a second phase on a context that is not tied to the caller's (detached, or a fresh budget of its own):
+after the truncated reply the end of the caller's context enables nothing -/
+example : ((({} : W).run [0, 2] [.next, .ctxEnd]).bind (fun s => s.step [0, 2] .wake)) = none := by decide
+example : ((({} : W).run [0, 0] [.next, .ctxEnd]).bind (fun s => s.step [0, 0] .wake)).map (·.returned) = some true := by decide
+
+/-- the wrappers of pkg/upstream/upstream.go as the source has them now -/
+def upstreamWrappers : List (String × List Nat) := Gen.Facts.c07UpstreamCtxArgs.getD [("unknown", [2])]
+
+/-- F2. in upstream.go every inner exchange of every wrapper runs on the caller's context or one derived from it -/
+theorem upstream_ctx_reaches_every_inner_exchange :
+    upstreamWrappers.all (fun w => !w.2.isEmpty && w.2.all tied) = true := by decide
+
+/-- F1 at the regenerated wrappers -/
+theorem upstream_wrappers_return_when_ctx_ends_src (w : String × List Nat) (hw : w ∈ upstreamWrappers)
+    (ls : List WLabel) (s : W) (hr : ({} : W).run w.2 ls = some s) (hd : s.ctxDone = true) (hn : s.returned = false) :
+    ∃ s', s.step w.2 .wake = some s' ∧ s'.returned = true := by
+  have h := List.all_eq_true.mp upstream_ctx_reaches_every_inner_exchange w hw
+  simp only [Bool.and_eq_true, Bool.not_eq_true'] at h
+  exact wrapper_returns_when_ctx_ends w.2 h.1 h.2 ls s hr hd hn
+
+end Upstream
 
 /-! ## non-vacuity -/
 
